@@ -63,7 +63,7 @@ def devId (kind : String) : Option Bytes :=
   else if kind == "empty" then some []
   else none
 
-partial def parseOp : List String → Option Call
+def parseOp : List String → Option Call
   | ["init"] => some .initLib
   | ["gcinfo"] => some .gcGetInfo
   | ["ifnum", h] => h.toNat?.map .ifGetNumDevices
